@@ -19,6 +19,10 @@
 // Two history families: hist.go (sequences of serialisations, all results held) and save.go
 // (sequences of CompiledLoader.SaveCompiled of one name into one directory with a changing source
 // and every relation between the template's and the file's modification time).
+//
+// Three aliasing families (alias.go): the byte slice handed to DeserializeCompiledTemplate /
+// LoadFromCompiledData belongs to the caller and is overwritten or reused for the next file
+// afterwards; what was deserialised / registered from it must not change.
 package main
 
 import (
@@ -403,10 +407,7 @@ func rdCase(src string, c cfg, way string, helpersCompiled bool, name string) *v
 	o := &vlib.Outcome{Counters: map[string]int64{}}
 	dir := ""
 	if way == "loader" { // a private directory per case
-		d, err := os.MkdirTemp("", "verif-c16-")
-		if err != nil {
-			panic("harness: " + err.Error())
-		}
+		d := alTempDir("verif-c16-") // under the run's scratch directory
 		defer os.RemoveAll(d)
 		dir = d
 	}
@@ -543,21 +544,32 @@ func runRD(t *vlib.T) {
 func main() {
 	vlib.Main(vlib.Spec{
 		ID: "C16", Level: "exploration",
-		Rule: "bounded-exhaustive: (rt) the full product of 15 names x 19 sources x 7 LastModified x 4 CompileTime x 5 AST sections (lengths 0, 1, 255, 256, 257, 4096, 4097, 65535, 65536, 65537, 70000, 1 MiB, thorough also 2^24-1, 2^24, 2^24+1, 64 MiB; all 256 byte values, NUL, non-UTF-8, '/', data that looks like a serialisation) through Serialize -> Deserialize with a second value serialised in between; (rd) every corpus source (spaced and tight) and every single-lexeme mutation of it x 5 engine configurations x 5 ways of loading the compiled form x included templates source/compiled x 3 names, rendered on 3 contexts and compared with an engine given the source; (hist) every sequence of 2-4 (thorough 5) serialisations over 8 sizes with all results held; (sv) every history of 2 or 3 different versions of one template name (4 sources, neighbours differ) saved by CompiledLoader.SaveCompiled into ONE directory x 3 ways the first version reaches the engine x 14 ways per later version (RegisterString again / new engine with a time-reporting loader / loader without times; template modification time older, equal, newer than the existing file's or zero; file left as written or moved in time with os.Chtimes) x 2 names (quick: 3-version histories under one name) - after every save the file, CompiledLoader.Load and two fresh engines on the directory must give the version saved last. Non-trivial = rt: name or source non-empty; rd: the source parses and at least one of the three reference renders succeeds (so output bytes are compared, not just error-ness); hist and sv: every case (each holds >= 2 results / overwrites a file at least once)",
+		Rule: "bounded-exhaustive: (rt) the full product of 15 names x 19 sources x 7 LastModified x 4 CompileTime x 5 AST sections (lengths 0, 1, 255, 256, 257, 4096, 4097, 65535, 65536, 65537, 70000, 1 MiB, thorough also 2^24-1, 2^24, 2^24+1, 64 MiB; all 256 byte values, NUL, non-UTF-8, '/', data that looks like a serialisation) through Serialize -> Deserialize with a second value serialised in between; (rd) every corpus source (spaced and tight) and every single-lexeme mutation of it x 5 engine configurations x 5 ways of loading the compiled form x included templates source/compiled x 3 names, rendered on 3 contexts and compared with an engine given the source; (hist) every sequence of 2-4 (thorough 5) serialisations over 8 sizes with all results held; (sv) every history of 2 or 3 different versions of one template name (4 sources, neighbours differ) saved by CompiledLoader.SaveCompiled into ONE directory x 3 ways the first version reaches the engine x 14 ways per later version (RegisterString again / new engine with a time-reporting loader / loader without times; template modification time older, equal, newer than the existing file's or zero; file left as written or moved in time with os.Chtimes) x 2 names (quick: 3-version histories under one name) - after every save the file, CompiledLoader.Load and two fresh engines on the directory must give the version saved last; (al) the compiled bytes lie in a buffer of the caller that is overwritten after loading: 3 ways of loading (Deserialize then register afterwards / Deserialize + Register / LoadFromCompiledData on two engines) x overwritten at once or after a first render x 5 overwrites (zero, '#', complement, shifted by one byte, the next compiled file of the same size) x 3 source shapes (text only, tags at start/middle/end, dense tags) x source sizes 10, 4095, 4096, 4097, 8192, 65536 (thorough 13 sizes up to 1 MiB) x name sizes short, 4095, 4096, 8192 (thorough also 4097, 65536) - afterwards the deserialised value must still hold name, source and both timestamps, and the engine must render the three contexts like the source and compile back to the source; (alseq) ONE read buffer for several compiled files in a row, nothing overwritten on purpose: every sequence of 2-3 (thorough 4) files over those six sizes x Deserialize / LoadFromCompiledData x short / 4096+i-byte names, everything held and checked after the last file; (alldr) the same sequences written by CompiledLoader.SaveCompiled and read back by ONE CompiledLoader value and one engine. Non-trivial = rt: name or source non-empty; rd: the source parses and at least one of the three reference renders succeeds (so output bytes are compared, not just error-ness); hist and sv: every case (each holds >= 2 results / overwrites a file at least once); al: at least one reference render succeeds and the overwrite changed the buffer (asserted); alseq and alldr: every case (>= 2 files through one buffer / loader)",
 		Assumptions: []string{
 			"sources and names of 4 GiB and more (beyond the 32-bit length prefix) are not explored",
 			"the error TEXT of a failing render / registration is not compared, only that both sides fail",
 			"registration on an engine whose cache is switched off is a no-op for source and compiled templates alike and is left out (C15 treats it as unspecified)",
 			"names with a path separator are saved by the compiled loader only into an existing sub-directory (the check creates it); saving into a missing one returns an error and writes no file, which the statement does not cover",
 			"CompileTime of a file written by CompiledLoader.SaveCompiled is the wall clock and is not compared",
+			"aliasing families: the AST section of a deserialised value is not looked at after the caller's buffer was overwritten (the statement names name, source and timestamps; whether that byte slice may share memory with the input is left open); that deserialising leaves the caller's bytes untouched is only demanded as far as 'the same bytes load on a second engine'; concurrent use of the buffer is not generated",
 			"save histories: an unchanged source saved twice, an engine with auto-reload whose loader changes under it (what the engine holds then is C15's subject) and concurrent saves are not generated; modification times are steered with os.Chtimes and harness loaders, never by waiting",
 		},
 		QuickDeadline: 150, ThoroughDeadline: 840,
 		Run: func(t *vlib.T) {
-			runRD(t)
-			runRT(t)
-			runHist(t)
-			runSave(t)
+			// C16_FAMILIES=rd,rt,al,alseq,hist,sv restricts a development run to some families
+			// (alseq includes alldr); unset = everything, which is what run.sh does
+			want := func(f string) bool {
+				v := os.Getenv("C16_FAMILIES")
+				return v == "" || strings.Contains(","+v+",", ","+f+",")
+			}
+			for _, f := range []struct {
+				id  string
+				run func(*vlib.T)
+			}{{"rd", runRD}, {"rt", runRT}, {"al", runAlias}, {"alseq", runAliasSeq}, {"hist", runHist}, {"sv", runSave}} {
+				if want(f.id) {
+					f.run(t)
+				}
+			}
 		},
 	})
 }
